@@ -2328,3 +2328,12 @@ m("C11", "match-tag-result-untested", "parser.py",
         # e.g. ``</`` that is not followed by a name
         raise ParseError("Malformed tag.", token)
 ''', "")
+
+m("C06", "reference-conversion-unguarded", "utils.py",
+  '''        except (ValueError, OverflowError):
+            # not a number, or not a code point: leave it as it is
+            return match.group()
+        else:''',
+  '''        except KeyError:
+            return match.group()
+        else:''')
